@@ -17,38 +17,38 @@ import (
 
 // TaskSnap is a deep copy of the reported state of one task of a job
 type TaskSnap struct {
-	Name         string     `json:"name"`
-	Status       string     `json:"status"`
-	Start        *time.Time `json:"start,omitempty"`
-	End          *time.Time `json:"end,omitempty"`
-	Skipped      bool       `json:"skipped,omitempty"`
-	ExitCode     int16      `json:"exitCode,omitempty"`
-	Errored      bool       `json:"errored,omitempty"`
-	Error        string     `json:"error,omitempty"`
-	HasError     bool       `json:"hasError,omitempty"`
-	Canceled     bool       `json:"canceled,omitempty"`
-	DependsOn    []string   `json:"dependsOn,omitempty"`
-	Script       []string   `json:"script,omitempty"`
-	AllowFailure bool       `json:"allowFailure,omitempty"`
+	Name         string            `json:"name"`
+	Status       string            `json:"status"`
+	Start        *time.Time        `json:"start,omitempty"`
+	End          *time.Time        `json:"end,omitempty"`
+	Skipped      bool              `json:"skipped,omitempty"`
+	ExitCode     int16             `json:"exitCode,omitempty"`
+	Errored      bool              `json:"errored,omitempty"`
+	Error        string            `json:"error,omitempty"`
+	HasError     bool              `json:"hasError,omitempty"`
+	Canceled     bool              `json:"canceled,omitempty"`
+	DependsOn    []string          `json:"dependsOn,omitempty"`
+	Script       []string          `json:"script,omitempty"`
+	AllowFailure bool              `json:"allowFailure,omitempty"`
 	Env          map[string]string `json:"env,omitempty"`
 }
 
 // JobSnap is a deep copy of the reported state of a job, taken under the runner's own lock (ReadJob / IterateJobs)
 type JobSnap struct {
-	ID         string         `json:"id"`
-	Pipeline   string         `json:"pipeline"`
-	Completed  bool           `json:"completed,omitempty"`
-	Canceled   bool           `json:"canceled,omitempty"`
-	Created    time.Time      `json:"created"`
-	Start      *time.Time     `json:"start,omitempty"`
-	End        *time.Time     `json:"end,omitempty"`
-	User       string         `json:"user,omitempty"`
-	LastError  string         `json:"lastError,omitempty"`
-	HasError   bool           `json:"hasError,omitempty"`
-	Variables  map[string]any `json:"variables,omitempty"`
-	StartDelay time.Duration  `json:"startDelay,omitempty"`
+	ID         string            `json:"id"`
+	Pipeline   string            `json:"pipeline"`
+	Completed  bool              `json:"completed,omitempty"`
+	Canceled   bool              `json:"canceled,omitempty"`
+	Created    time.Time         `json:"created"`
+	Start      *time.Time        `json:"start,omitempty"`
+	End        *time.Time        `json:"end,omitempty"`
+	User       string            `json:"user,omitempty"`
+	LastError  string            `json:"lastError,omitempty"`
+	HasError   bool              `json:"hasError,omitempty"`
+	Variables  map[string]any    `json:"variables,omitempty"`
+	StartDelay time.Duration     `json:"startDelay,omitempty"`
 	Env        map[string]string `json:"env,omitempty"`
-	Tasks      []TaskSnap     `json:"tasks"`
+	Tasks      []TaskSnap        `json:"tasks"`
 }
 
 func (j *JobSnap) Waiting() bool  { return j.Start == nil && !j.Canceled }
@@ -138,12 +138,12 @@ func SnapJob(j *prunner.PipelineJob) JobSnap {
 
 type iterState struct {
 	lastChange int64 // iteration count at which the status map last differed from the one of the previous iteration
-	count    int64
-	lastSeq  int64
-	statuses map[string]int32
-	parked   bool
-	release  chan struct{}
-	parkPred func(count int64, st map[string]int32) bool
+	count      int64
+	lastSeq    int64
+	statuses   map[string]int32
+	parked     bool
+	release    chan struct{}
+	parkPred   func(count int64, st map[string]int32) bool
 }
 
 // Sys wraps one PipelineRunner under test with monitored collaborators
